@@ -108,7 +108,66 @@ fn lib_channel(expr: &[u8], ctx: &mut Ctx) -> (Vec<CEntry>, Option<String>, Vec<
             Ok(CT::ModuleChannel(..)) => issues.push("module-channel-yielded".into()),
         }
     }
+    if issues.is_empty() && expr.len() % 3 == 0 {
+        other_walks(|| ChannelList::new(expr).unwrap(), out.len(), "channel-list", &mut issues);
+    }
     (out, None, issues)
+}
+
+
+/// Every way the `Iterator` trait offers of walking a well-formed list / spec must give the entries plain `next()`
+/// gives (an implementation is free to provide `nth`, `count`, `last`, `size_hint`, ... itself). Only called when
+/// plain iteration yielded `n_items` error-free items and then ended.
+fn other_walks<F, I>(mk: F, n_items: usize, label: &str, issues: &mut Vec<String>)
+where
+    F: Fn() -> I,
+    I: Iterator,
+    I::Item: std::fmt::Debug,
+{
+    if n_items > 6 {
+        return;
+    }
+    let plain: Vec<String> = mk().take(n_items + 1).map(|x| format!("{:?}", x)).collect();
+    if plain.len() != n_items {
+        return;
+    }
+    for k in 0..=n_items {
+        for n in 0..=(n_items - k) {
+            let mut it = mk();
+            for _ in 0..k {
+                it.next();
+            }
+            let (lo, hi) = it.size_hint();
+            if lo > n_items - k || hi.map_or(false, |h| h < n_items - k) {
+                issues.push(format!("{}:size_hint-excludes-the-remaining-count", label));
+            }
+            let got = it.nth(n).map(|x| format!("{:?}", x));
+            if got.as_ref() != plain.get(k + n) {
+                issues.push(format!("{}:nth-after-next-differs-from-plain-iteration", label));
+            }
+        }
+        let mut it = mk();
+        for _ in 0..k {
+            it.next();
+        }
+        if it.count() != n_items - k {
+            issues.push(format!("{}:count-differs-from-plain-iteration", label));
+        }
+    }
+    if mk().last().map(|x| format!("{:?}", x)).as_ref() != plain.last() {
+        issues.push(format!("{}:last-differs-from-plain-iteration", label));
+    }
+    for step in 2..=3 {
+        let got: Vec<String> = mk().step_by(step).take(n_items + 1).map(|x| format!("{:?}", x)).collect();
+        let want: Vec<String> = plain.iter().step_by(step).cloned().collect();
+        if got != want {
+            issues.push(format!("{}:step_by-differs-from-plain-iteration", label));
+        }
+    }
+    let got: Vec<String> = mk().skip(1).take(n_items + 1).map(|x| format!("{:?}", x)).collect();
+    if got[..] != plain[1.min(n_items)..] {
+        issues.push(format!("{}:skip-differs-from-plain-iteration", label));
+    }
 }
 
 /// iterate a spec's dimensions (up to the first error) and cross-check dimension() and every scalar/tuple conversion
@@ -125,6 +184,7 @@ fn spec_vals(s: &ChannelSpec, ctx: &mut Ctx, issues: &mut Vec<String>) -> Result
         }
     }
     ctx.count("spec.iterated");
+    other_walks(|| s.into_iter(), v.len(), "spec", issues);
     if s.dimension() != v.len() || s.len() != v.len() {
         issues.push(format!("dimension()-says-{}-but-{}-values-iterate", s.dimension(), v.len()));
     }
@@ -178,6 +238,7 @@ fn spec_vals(s: &ChannelSpec, ctx: &mut Ctx, issues: &mut Vec<String>) -> Result
 }
 
 fn lib_numeric(l: NumericList, n_guard: usize) -> (Vec<NEntry>, Option<String>, Vec<String>) {
+    let again = l.clone();
     let mut out = vec![];
     let mut issues = vec![];
     let num = |t: &Token| -> Option<Vec<u8>> {
@@ -205,6 +266,9 @@ fn lib_numeric(l: NumericList, n_guard: usize) -> (Vec<NEntry>, Option<String>, 
                 _ => issues.push("range-entry-is-not-decimal-tokens".into()),
             },
         }
+    }
+    if issues.is_empty() && n_guard % 3 == 0 {
+        other_walks(|| again.clone(), out.len(), "numeric-list", &mut issues);
     }
     (out, None, issues)
 }
